@@ -1,6 +1,6 @@
 /* C10 / C09: mtbl/metadata.c (real) -- serialisation order of the nine 64-bit fields, zero padding, magic, and the
  * inverse metadata_read (both magics); the ten accessors.  Loops are width-bounded (436 padding bytes): unwound, complete. */
-#include "/repo/mtbl/metadata.c"
+#include "mtbl/metadata.c"
 #include "spec/ghost.h"
 
 void h_metadata(void)
